@@ -141,7 +141,7 @@ def check(tier):
     t0 = time.time()
     binp = lib.build("c07")
     v = lib.Verdict(PID)
-    ncases = 80 if tier == "quick" else 1500
+    ncases = 80 if tier == "quick" else 1200
     with lib.Scratch() as scd:
         wit = witness_cases()
         r, drawn, mc = mc_cases(tier)
